@@ -10,17 +10,6 @@ use crate::rng::Rng;
 use crate::tok::*;
 use serde_json::{json, Value};
 
-fn other_key_same_family(k: KeyId) -> KeyId {
-    match k {
-        KeyId::IssuerEc => KeyId::HolderEc,
-        KeyId::IssuerEd => KeyId::HolderEd,
-        KeyId::Hmac1 => KeyId::Hmac2,
-        KeyId::HolderEc => KeyId::IssuerEc,
-        KeyId::HolderEd => KeyId::IssuerEd,
-        KeyId::Hmac2 => KeyId::Hmac1,
-    }
-}
-
 /// honest key-bound flows, each with a second credential issued by the same issuer key to the same holder key
 /// (same format, same aud / nonce)
 pub fn kb_pairs(ctx: &mut Ctx, n: usize, tag: u64) -> Vec<(Honest, Option<Honest>)> {
@@ -194,7 +183,7 @@ pub fn kb_attacks(r: &mut Rng, h: &Honest, other: Option<&Honest>, edits: usize,
     }
 
     // header typ absent or different, properly signed by the holder key
-    let typs: [(&str, Option<Value>); 7] = [
+    let typs: [(&str, Option<Value>); 11] = [
         ("typ-absent", None),
         ("typ-null", Some(Value::Null)),
         ("typ-jwt", Some(json!("jwt"))),
@@ -202,6 +191,10 @@ pub fn kb_attacks(r: &mut Rng, h: &Honest, other: Option<&Honest>, edits: usize,
         ("typ-sd+jwt", Some(json!("sd+jwt"))),
         ("typ-trailing-space", Some(json!("kb+jwt "))),
         ("typ-empty", Some(json!(""))),
+        ("typ-as-media-type", Some(json!("application/kb+jwt"))),
+        ("typ-uppercase", Some(json!("KB+JWT"))),
+        ("typ-leading-space", Some(json!(" kb+jwt"))),
+        ("typ-with-parameter", Some(json!("kb+jwt; charset=utf-8"))),
     ];
     for (name, t) in typs {
         let mut h2 = hdr.clone();
@@ -244,6 +237,14 @@ pub fn kb_attacks(r: &mut Rng, h: &Honest, other: Option<&Honest>, edits: usize,
     edit("sd_hash-wrong-value", "sd_hash", Some(json!(hash("some other presentation"))), true, &mut payloads);
     edit("sd_hash-empty", "sd_hash", Some(json!("")), true, &mut payloads);
     let right = sd_hash_over(jwt, ds);
+    // the right digest followed or preceded by more, a proper prefix of it, other digest lengths
+    edit("sd_hash-right-digest-plus-one-character", "sd_hash", Some(json!(format!("{}A", right))), true, &mut payloads);
+    edit("sd_hash-right-digest-padded", "sd_hash", Some(json!(format!("{}=", right))), true, &mut payloads);
+    edit("sd_hash-right-digest-twice", "sd_hash", Some(json!(format!("{}{}", right, right))), true, &mut payloads);
+    edit("sd_hash-proper-prefix", "sd_hash", Some(json!(right[..right.len() / 2].to_string())), true, &mut payloads);
+    edit("sd_hash-all-but-last-character", "sd_hash", Some(json!(right[..right.len() - 1].to_string())), true, &mut payloads);
+    edit("sd_hash-hex-length", "sd_hash", Some(json!("ab".repeat(32))), true, &mut payloads);
+    edit("sd_hash-sha512-length", "sd_hash", Some(json!("Q".repeat(86))), true, &mut payloads);
     edit("sd_hash-in-an-array(not asserted)", "sd_hash", Some(json!([right])), false, &mut payloads);
     let mut other_lists: Vec<(&'static str, String)> = vec![
         ("sd_hash-over-all-issued-disclosures", sd_hash_over(jwt, &h.issued.disclosures)),
@@ -303,6 +304,8 @@ pub fn kb_attacks(r: &mut Rng, h: &Honest, other: Option<&Honest>, edits: usize,
             out.push(b.with_parts(&format!("replay-one-disclosure-{}", name), jwt, l));
         }
     }
+    // no disclosure at all but one empty entry (compact: jwt~~kb)
+    out.push(b.with_parts("replay-only-an-empty-entry", jwt, vec![String::new()]));
     // an EMPTY entry added to the disclosure sequence (compact: a doubled `~`; JSON: an empty string): the sequence presented is
     // no longer the one the KB-JWT's sd_hash covers
     for (name, at) in [("front", 0usize), ("back", ds.len()), ("middle", ds.len() / 2)] {
